@@ -64,7 +64,7 @@ NoOp == [u |-> NoU,
          created |-> {}, posted |-> {}, crs |-> {}, log |-> <<>>, uerr |-> FALSE, errs |-> FALSE,
          memSt |-> "", origSt |-> "",
          hk |-> NoHk, kctx |-> "", pctx |-> "", ret |-> "",
-         result |-> "", n |-> 0, faultAt |-> 0, flt |-> {}, kf |-> {}, plan |-> 0, cplan |-> 0]
+         result |-> "", n |-> 0, faultAt |-> 0, flt |-> {}, kf |-> {}, plan |-> 0, cplan |-> 0, sub |-> FALSE, fsub |-> FALSE]
 
 Used     == {r \in Rev : store[r].st # "none"}
 Last     == MaxOf(Used)
@@ -262,6 +262,9 @@ Go(p, t) ==
   LET r == Resolve(t) IN
   /\ pc' = [pc EXCEPT ![p] = r.pc]
   /\ op' = [op EXCEPT ![p] = [r.op EXCEPT !.n = op[p].n + 1,
+                                          \* a history query after the record was created: the atomic
+                                          \* sub-operation (uninstall / rollback) has begun
+                                          !.sub = @ \/ (last'.kind = "store" /\ last'.verb = "query" /\ last'.id = "history" /\ op[p].crs # {}),
                                           !.log = IF KeepLog THEN Append(@, last') ELSE @]]
   /\ hist' = IF LogSched THEN Append(hist, [step |-> "c", p |-> p]) ELSE hist
 
@@ -270,6 +273,7 @@ GoF(p, t, cls) ==
   LET r == Resolve(t) IN
   /\ pc' = [pc EXCEPT ![p] = r.pc]
   /\ op' = [op EXCEPT ![p] = [r.op EXCEPT !.n = op[p].n + 1, !.faultAt = op[p].n + 1, !.flt = @ \cup {cls},
+                                          !.fsub = @ \/ (op[p].sub /\ cls # "store"),
                                           !.log = IF KeepLog THEN Append(@, last') ELSE @]]
   /\ hist' = [hist EXCEPT ![Len(hist)].fault = op[p].n + 1, ![Len(hist)].flab = last']
 
